@@ -113,3 +113,36 @@ def z3_valid_date(yt, m, d):
 def z3_weekday(days32):
     """ISO weekday from a BV32 signed day count (domain |days| < 2^20)."""
     return z3.URem(days32 + 5 + 7 * 100000, 7) + 1
+
+
+# ---- z3 renderings over mathematical integers (for the Python side, pysym) ------------------------------------
+
+def zi_table(idx, entries, default):
+    e = z3.IntVal(default)
+    for k, v in entries:
+        e = z3.If(idx == k, z3.IntVal(v), e)
+    return e
+
+
+def zi_leap(y):
+    return z3.Or([y == yy for yy in range(1873, 2128) if is_leap(yy)])
+
+
+def zi_dim(y, m):
+    """m: python int or z3 Int"""
+    base = zi_table(m, [(k, MONTH_LEN[k - 1]) for k in range(1, 13)], 0) if not isinstance(m, int) else z3.IntVal(MONTH_LEN[m - 1])
+    return z3.If(z3.And(m == 2, zi_leap(y)), z3.IntVal(29), base)
+
+
+def zi_days(y, m, d):
+    y0 = zi_table(y, [(yy, YEAR0[yy]) for yy in range(1873, 2128)], 0)
+    if isinstance(m, int):
+        cum = z3.If(zi_leap(y), z3.IntVal(CUM[True][m]), z3.IntVal(CUM[False][m]))
+    else:
+        cum = z3.If(zi_leap(y), zi_table(m, [(k, CUM[True][k]) for k in range(1, 13)], 0),
+                    zi_table(m, [(k, CUM[False][k]) for k in range(1, 13)], 0))
+    return y0 + cum + d - 1
+
+
+def zi_weekday(days_):
+    return (days_ + 5) % 7 + 1
